@@ -41,6 +41,8 @@ type runner struct {
 	items []item
 	xform []func(string) string // per item (C08): translation of the model's answer before comparing
 	stop  bool
+	// search: the correspondence broke; look through every crash point for a run on which the property fails
+	search bool
 }
 
 func (r *runner) violate(kind, key, what string, extra map[string]interface{}) {
@@ -209,6 +211,13 @@ func Run(cfg Config) (int, error) {
 			if model[i] != it.impl {
 				r.violate("correspondence", "model", fmt.Sprintf("impl=%q model=%q for %s", it.impl, model[i], it.line), map[string]interface{}{"lines": []string{it.line}})
 				break
+			}
+		}
+		if r.stop && cfg.Prop == "C08" && cfg.Tier != "thorough" {
+			// the model no longer describes the code: look for a crash point at which the property itself fails
+			r.stop, r.search, r.items, r.xform = false, true, nil, nil
+			if err := r.c08(); err != nil {
+				return 2, err
 			}
 		}
 	}
@@ -520,7 +529,7 @@ func (r *runner) c08() error {
 		}
 		points := [][]dkgrig.CrashPoint{}
 		stride := 1
-		if r.cfg.Tier != "thorough" {
+		if r.cfg.Tier != "thorough" && !r.search {
 			stride = total/34 + 1
 		}
 		for s := 1; s <= total; s += stride {
@@ -570,6 +579,10 @@ func (r *runner) c08() error {
 			r.res.Count(fmt.Sprintf("restarts:%d", len(tr.Restarts)))
 			if bad := dkgrig.SameOutcome(ref, out); len(bad) > 0 {
 				r.violate("spec", "outcome-differs", fmt.Sprintf("crash %s of keyper %d: the outcome differs from the crash-free run: %s", what, su.observed, strings.Join(bad, "; ")), extra)
+				break
+			}
+			if bad := dkgrig.SameMessages(ref, out); len(bad) > 0 {
+				r.violate("spec", "messages-differ", fmt.Sprintf("crash %s of keyper %d: the key generation messages executed on the chain differ from the crash-free run: %s", what, su.observed, strings.Join(bad, "; ")), extra)
 				break
 			}
 			if bad := dkgrig.CheckTrace(out, su.observed); len(bad) > 0 {
